@@ -5,16 +5,20 @@ ID = 'C03'
 LEAN_MODULES = ['TboxModel.C03.Props']
 EXE = 'c03'
 MODE = 'trace'
-THEOREMS = ['Tbox.C03.C03_only_enabled_ready', 'Tbox.C03.C03_oneshot_disabled_in_cb', 'Tbox.C03.C03_no_stale_access',
+THEOREMS = ['Tbox.C03.C03_only_enabled_ready', 'Tbox.C03.C03_same_open_file_partial', 'Tbox.C03.C03_same_open_file_counterexample',
+            'Tbox.C03.C03_badf_pass_safe', 'Tbox.C03.exec_sync', 'Tbox.C03.C03_oneshot_disabled_in_cb', 'Tbox.C03.C03_no_stale_access',
             'Tbox.C03.C03_counts_match', 'Tbox.C03.C03_interest_agree', 'Tbox.C03.C03_backends_agree',
+            'Tbox.C03.C03_order_indep_syn', 'Tbox.C03.C03_backends_agree_syn', 'Tbox.C03.orderIndepSyn_sound',
             'Tbox.C03.C03_close_contract',
             'Tbox.C03.exec_inv',
             'Tbox.C03.C03_select_at_counterexample', 'Tbox.C03.C03_epoll_stale_record_counterexample',
             'Tbox.C03.C03_epoll_reused_block_counterexample', 'Tbox.C03.C03_disabled_sibling_counterexample',
-            'Tbox.C03.C03_destroyed_sibling_counterexample', 'Tbox.C03.C03_fd_reuse_counterexample']
+            'Tbox.C03.C03_destroyed_sibling_counterexample', 'Tbox.C03.C03_fd_reuse_counterexample',
+            'Tbox.C03.C03_badf_partial_disable_counterexample', 'Tbox.C03.C03_except_backends_counterexample']
 SOURCES = vlib.EVENT_SOURCES + vlib.BASE_SOURCES
 FLAVOUR = 'asan'
 LIBS = ['-ldl']
+EXTRA_FLAGS = ['-DDEFAULT_MAX_LOOP_ENTRIES=4']   # EpollLoop starts with room for 4 events per wait and grows by half: observable with 6 descriptors
 BATCH = 150
 MAX_REPORT = 12          # the corpus (run first) holds one witness per defect class; report each class once
 SHRINK_TESTS = 60
@@ -22,10 +26,13 @@ TRUSTED = ['model lean/TboxModel/C03/Model.lean hand-written from engines/{epoll
            'trace acceptor: kernel interest and ready list (seen by interposed epoll_ctl/epoll_wait/select) must be what the model says, and '
            'with that ready order every callback, script result and isEnabled() vector of the real loop must equal the model\'s',
            'Linux epoll/select semantics for socket pairs (level-triggered, interest ∩ readiness), ASan + pool poisoning hook H3 for raw memory safety',
-           'libc interposition of epoll_ctl/epoll_wait/select in the harness (props/C03/harness.cpp)']
+           'libc interposition of epoll_ctl/epoll_wait/select and a virtual clock in the harness (props/C03/harness.cpp, harness/vtime.h)',
+           'the harness is compiled with -DDEFAULT_MAX_LOOP_ENTRIES=4 (default 256) so that the growth of the epoll_wait array is reached with 6 descriptors']
 ASSUMPTIONS = ['an event object is not deleted from inside its own callback (the code asserts cb_level_ == 0)',
-               'a descriptor is closed only when no event object refers to it any more (harness refuses the close otherwise)',
-               'fewer than 64 parked pool blocks; no EBADF/EINTR from the wait call; the loop is not re-entered from a callback']
+               'the theorem that a callback is on the same open file the kernel reported on assumes the close contract (no descriptor closed while an event object refers to it); everything else holds without it',
+               'no EINTR/other error from the wait call (EBADF is covered); the loop is not re-entered from a callback',
+               'except condition = out-of-band data on an AF_UNIX socket pair as this kernel reports it (POLLPRI; a drain discards it); EPOLLERR/EPOLLHUP '
+               'conditions (peer closed, socket error) are not produced']
 RULE = ('cases = events (scripts of enable/disable/destroy/initialize/close/readiness actions run inside their callbacks) on 1-6 socket pairs, '
         'API ops and loop passes on the real epoll or select loop; non-trivial = some pass served a shared descriptor or >= 2 ready descriptors '
         'while a callback destroyed/disabled/re-initialised events or reused a descriptor number (driver tags shared-fd, multi-ready, skip-*, '
@@ -43,16 +50,18 @@ def _act(rng, nev, nfd, self_id, spare):
     if r < 0.70:
         j = rng.choice(spare) if spare and rng.random() < 0.7 else k
         return 'i%d:%d:%d:%s' % (j, f, rng.choice([1, 1, 1, 2, 3, 3, 5, 7, 0]), rng.choice('ppo'))
-    if r < 0.80: return 'c%d' % f
-    if r < 0.88: return 'u%d' % f
-    if r < 0.94: return 'r%d' % f
-    if r < 0.97: return 'b%d' % f
+    if r < 0.77: return 'c%d' % f
+    if r < 0.80: return 'k%d' % f
+    if r < 0.87: return 'u%d' % f
+    if r < 0.92: return 'r%d' % f
+    if r < 0.95: return 'o%d' % f
+    if r < 0.975: return 'b%d' % f
     return 'w%d' % f
 
 
 def gen_case(rng, nops):
     be = rng.choice(['epoll', 'select'])
-    nfd = rng.choice([1, 2, 2, 3, 3, 4, 6])
+    nfd = rng.choice([1, 2, 2, 3, 3, 4, 6, 6])
     plan = []                                    # (fd, mask, mode) per initialised event
     for f in range(nfd):
         for _ in range(rng.choice([1, 1, 2, 2, 3, 4])):
@@ -61,7 +70,7 @@ def gen_case(rng, nops):
     nspare = rng.choice([0, 1, 2, 3])
     nev = len(plan) + nspare
     spare = list(range(len(plan), nev))
-    ops = ['be ' + be]
+    ops = ['be ' + be] + (['tm'] if rng.random() < 0.3 else [])
     for j in range(nev):
         n = rng.choice([0, 0, 1, 1, 2, 3, 4])
         sc = []
@@ -80,7 +89,7 @@ def gen_case(rng, nops):
     for _ in range(nops):
         r = rng.random()
         if r < 0.45: ops.append('pass')
-        elif r < 0.62: ops.append('do ' + rng.choice('ruruwb') + str(rng.randrange(nfd)))
+        elif r < 0.62: ops.append('do ' + rng.choice('rururuwbock') + str(rng.randrange(nfd)))
         else: ops.append('do ' + _act(rng, nev, nfd, -1, spare))
     if ops[-1] != 'pass': ops.append('pass')
     return ops
@@ -119,9 +128,10 @@ def gen_cross(rng):
         ops.append('new ' + (','.join(scripts[j]) or '-'))
     for f in range(nfd):
         for j in ids[f]:
-            ops.append('do i%d:%d:%d:%s' % (j, f, rng.choice([1, 1, 3]), rng.choice('ppo')))
+            ops.append('do i%d:%d:%d:%s' % (j, f, rng.choice([1, 1, 3, 5]), rng.choice('ppo')))
             ops.append('do e%d' % j)
         ops.append('do b%d' % f) if rng.random() < 0.7 else None
+        ops.append('do o%d' % f) if rng.random() < 0.15 else None
     ops = [o for o in ops if o]
     order = list(range(nfd)); rng.shuffle(order)
     for f in order:
@@ -152,6 +162,76 @@ def gen_rehome(rng):
     return ops
 
 
+def gen_agree(rng):
+    """family satisfying OrderIndepSyn in every pass: callbacks only enable/disable events of their own descriptor and change
+    the readiness of their own descriptor; the same ops run on epoll and then on select, `cmp` compares the callbacks pass by pass"""
+    nfd = rng.choice([2, 2, 3, 4, 5])
+    groups, k = [], 0
+    for f in range(nfd):
+        n = rng.choice([1, 1, 2, 3])
+        groups.append(list(range(k, k + n))); k += n
+    body = []
+    for f in range(nfd):
+        for j in groups[f]:
+            sc = []
+            for _ in range(rng.choice([0, 1, 1, 2, 3])):
+                x = rng.choice(groups[f])
+                sc.append(rng.choice(['d%d' % x, 'd%d' % x, 'e%d' % x, 'u%d' % f, 'u%d' % f, 'r%d' % f, 'o%d' % f, 'b%d' % f, 'w%d' % f]))
+            body.append('new ' + (','.join(sc) or '-'))
+    for f in range(nfd):
+        for j in groups[f]:
+            body.append('do i%d:%d:%d:%s' % (j, f, rng.choice([1, 1, 1, 3, 5, 2, 7]), rng.choice('pppo')))
+            if rng.random() < 0.9: body.append('do e%d' % j)
+        if rng.random() < 0.6: body.append('do b%d' % f)
+    order = list(range(nfd)); rng.shuffle(order)          # epoll lists ready descriptors in the order they became ready
+    for f in order:
+        body.append('do ' + rng.choice(['r', 'r', 'r', 'o']) + str(f))
+    body.append('pass')
+    for _ in range(rng.choice([1, 2, 4, 6])):
+        r = rng.random()
+        if r < 0.5: body.append('pass')
+        elif r < 0.8: body.append('do ' + rng.choice('ruowb') + str(rng.randrange(nfd)))
+        else: body.append('do ' + rng.choice('ed') + str(rng.randrange(k)))
+    body.append('pass')
+    return ['be epoll'] + body + ['be select'] + body + ['cmp']
+
+
+def gen_wide(rng):
+    """directed: all six descriptors ready at once, repeatedly: epoll_wait fills its 4-entry array, the loop grows it by half;
+    a 1 ms timer is armed: its callback must come between the wait and the descriptor callbacks"""
+    be = rng.choice(['epoll', 'epoll', 'select'])
+    ops = ['be ' + be, 'tm']
+    for j in range(6): ops.append('new ' + rng.choice(['-', '-', 'u%d' % j, 'd%d' % j, 'x%d' % ((j + 1) % 6)]))
+    for j in range(6): ops += ['do i%d:%d:%d:p' % (j, j, rng.choice([1, 3])), 'do e%d' % j]
+    order = list(range(6)); rng.shuffle(order)
+    ops += ['do b%d' % j for j in range(6) if rng.random() < 0.7]
+    ops += ['do r%d' % j for j in order]
+    ops += ['pass'] * rng.choice([2, 3, 4, 5])
+    ops += ['do r%d' % j for j in order] + ['pass', 'pass']
+    return ops
+
+
+def gen_badf(rng):
+    """directed: a descriptor is closed (number left unused, or reopened) while events still refer to it — outside or inside a
+    callback; select must take the EBADF path (removeInvalidFds), epoll silently loses the registration"""
+    be = rng.choice(['select', 'select', 'epoll'])
+    n0 = rng.choice([1, 2, 3, 3, 4, 5])
+    n1 = rng.choice([1, 2])
+    how = rng.choice(['k0', 'k0', 'c0', 'k0,c0'])
+    incb = rng.random() < 0.5
+    ops = ['be ' + be]
+    for j in range(n0): ops.append('new ' + rng.choice(['-', '-', 'u0', 'd%d' % rng.randrange(n0)]))
+    for j in range(n1): ops.append('new ' + ((how + rng.choice(['', ',u1'])) if incb and j == 0 else rng.choice(['-', 'u1'])))
+    for j in range(n0): ops += ['do i%d:0:%d:%s' % (j, rng.choice([1, 1, 3, 5]), rng.choice('pppo'))] + (['do e%d' % j] if rng.random() < 0.9 else [])
+    for j in range(n1): ops += ['do i%d:1:1:p' % (n0 + j), 'do e%d' % (n0 + j)]
+    ops += ['do b0', 'do b1', 'do r0', 'do r1']
+    if not incb: ops += ['do ' + a for a in how.split(',')]
+    ops += ['pass', 'pass', 'pass']
+    ops += rng.choice([['do c0'], ['do c0', 'do e0'], ['do d0', 'do c0', 'do e0'], []]) + ['do r0', 'pass']
+    ops += ['do d%d' % j for j in range(n0) if rng.random() < 0.5] + ['do e%d' % j for j in range(n0) if rng.random() < 0.7] + ['do r0', 'pass', 'pass']
+    return ops
+
+
 # one minimal witness per defect of the tree as found (also in corpus/C03/*.ops)
 DIRECTED = [
     # D1/D2: the callback of one ready descriptor destroys the only event of the other ready descriptor (symmetric: either order)
@@ -169,6 +249,17 @@ DIRECTED = [
     ['be select', 'new x1,c1,i2:1:1:p,e2', 'new x0,c0,i2:0:1:p,e2', 'new -', 'do i0:0:1:p', 'do i1:1:1:p', 'do e0', 'do e1', 'do r0', 'do r1', 'pass', 'pass'],
     # same descriptor, whole record replaced while its own dispatch loop runs (re-home the running event, destroy the sibling, reuse the number)
     ['be epoll', 'new d0,i0:1:1:p,x1,c0,i1:0:1:p', 'new -', 'new -', 'do i0:0:1:p', 'do i1:0:1:p', 'do i2:0:1:p', 'do e0', 'do e1', 'do r0', 'pass', 'pass'],
+    # D5: select, three events on a descriptor that is closed while they are enabled: EBADF -> removeInvalidFds must disable all three
+    ['be select', 'new -', 'new -', 'new -', 'do i0:0:1:p', 'do i1:0:1:p', 'do i2:0:1:p', 'do e0', 'do e1', 'do e2', 'do k0', 'pass', 'pass',
+     'do c0', 'do e0', 'do r0', 'pass'],
+    # the same from inside the callback of another ready descriptor (the stale ready entry of the closed one is still served)
+    ['be select', 'new k1', 'new -', 'new -', 'new -', 'do i0:0:1:p', 'do i1:1:1:p', 'do i2:1:1:p', 'do i3:1:1:p', 'do e0', 'do e1', 'do e2',
+     'do e3', 'do r0', 'do r1', 'pass', 'pass', 'pass'],
+    # epoll: the kernel drops a closed descriptor silently; after reopening the stale record must be disabled and enabled again
+    ['be epoll', 'new -', 'do i0:0:1:p', 'do e0', 'do r0', 'pass', 'do k0', 'pass', 'do c0', 'do r0', 'pass', 'do d0', 'do e0', 'pass'],
+    # D6: out-of-band data is the except condition in both back-ends
+    ['be epoll', 'new u0', 'new -', 'do i0:0:4:p', 'do i1:0:5:o', 'do e0', 'do e1', 'do o0', 'pass', 'pass', 'do o0', 'do r0', 'pass'],
+    ['be select', 'new u0', 'new -', 'do i0:0:4:p', 'do i1:0:5:o', 'do e0', 'do e1', 'do o0', 'pass', 'pass', 'do o0', 'do r0', 'pass'],
     # one-shot sharing a descriptor with a persistent event; write readiness
     ['be select', 'new -', 'new u0', 'do i0:0:3:o', 'do i1:0:1:p', 'do e0', 'do e1', 'do r0', 'pass', 'pass', 'do e0', 'do b0', 'pass', 'do w0', 'pass'],
 ]
@@ -177,7 +268,7 @@ DIRECTED = [
 def gen(rng, tier):
     n = 500 if tier == 'quick' else 25000
     # malformed stream: both sides must answer bad-op
-    yield ['be poll', 'new x0', 'new e1,', 'do i0:9:1:p', 'do i0:0:8:p', 'do i0:0:1:q', 'do q1', 'frob', 'do', 'pass 1', 'new -', 'do e', 'do i0:0:1', 'do c6', 'pass']
+    yield ['be poll', 'new x0', 'new e1,', 'do i0:9:1:p', 'do i0:0:8:p', 'do i0:0:1:q', 'do q1', 'frob', 'do', 'pass 1', 'new -', 'do e', 'do i0:0:1', 'do c6', 'do k6', 'do o', 'cmp 1', 'cmp', 'tm', 'tm', 'bulk 0', 'bulk 201', 'bulk x', 'bulk 2', 'pass']
     for d in DIRECTED:
         yield list(d)
     for _ in range(n):
@@ -186,6 +277,16 @@ def gen(rng, tier):
         yield gen_cross(rng)
     for _ in range(n // 5):
         yield gen_rehome(rng)
+    for _ in range(n // 4):
+        yield gen_badf(rng)
+    for _ in range(n // 2):
+        yield gen_agree(rng)
+    for _ in range(n // 10):
+        yield gen_wide(rng)
+    if tier == 'thorough':
+        for k in (64, 65, 70, 130, 200):     # more shared records alive at once than the pool keeps parked (64)
+            yield ['be ' + rng.choice(['epoll', 'select']), 'new -', 'do i0:0:1:p', 'do e0', 'bulk %d' % k, 'do r0', 'pass', 'bulk 3', 'new -',
+                   'do i%d:1:1:p' % (k + 4), 'do e%d' % (k + 4), 'do r1', 'pass', 'do x0', 'do x%d' % (k + 4), 'bulk 66', 'pass']
 
 
 def nontrivial(ops, model_lines):
@@ -199,7 +300,7 @@ def fingerprint(ops, d):
     m = re.search(r'CRASH ([\w:.-]+)', msg)
     if m: return 'crash-' + re.sub(r'[^A-Za-z0-9_-]+', '_', m.group(1))[:48]
     for key, fp in (('DESTROYED', 'cb-on-destroyed'), ('DISABLED', 'cb-on-disabled'), ('not due here', 'cb-stale-readiness'),
-                    ('kernel interest', 'kernel-interest'), ('ready list', 'ready-list'), ('missing from the kernel', 'ready-missing')):
+                    ('after EBADF pass', 'ebadf-partial-disable'), ('select EBADF', 'ebadf-mismatch'), ('kernel interest', 'kernel-interest'), ('ready list', 'ready-list'), ('missing from the kernel', 'ready-missing')):
         if key in msg: return fp
     return 'div-' + hashlib.sha1(re.sub(r'\d+', 'N', msg).encode()).hexdigest()[:10]
 
@@ -212,6 +313,8 @@ LEVEL_TEXT = ('Lean 4 theorems over a model of the descriptor-event layer of bot
               'loops on every run by a trace acceptor (interposed epoll_ctl/epoll_wait/select, ASan with pool poisoning)')
 LEVEL_NOTE = ('trusted: Lean kernel, hand-written model + trace-acceptor tie (coverage bounded by the generator, measured), Linux epoll/select '
               'semantics on socket pairs, libc interposition; raw memory safety is observed by ASan on the implementation, the model proves the '
-              'handle/liveness logic; except-condition readiness is never produced by the harness')
+              'handle/liveness logic; "callback on the same open file the kernel reported on" is proved under the close contract only (counterexample '
+              'theorem + replay for a descriptor closed while an enabled event refers to it: the loop cannot know); back-end agreement has a decidable '
+              'premise (OrderIndepSyn) that excludes initialize/destroy/close inside callbacks')
 TECHNIQUE = 'Lean 4 invariant proof over all executions of an fd-event model (both back-ends) + trace-acceptor correspondence with the real loops'
 DESIGN_REF = 'DESIGN.md §6 C03'
